@@ -88,7 +88,8 @@ pub struct C17 {
     /// how the command line is spelled (0 = short options after the positionals; see `restyle`)
     pub arg_style: u64,
     /// output faults produced by the kernel itself rather than by the shim (a cross-check of the
-    /// shim): "" | "devfull" (-o /dev/full) | "fsize=N" (RLIMIT_FSIZE = N with SIGXFSZ ignored)
+    /// shim): "" | "fsize=N" (RLIMIT_FSIZE = N with SIGXFSZ ignored) | "outdir" (a directory at the
+    /// output path)
     pub kernel_fault: String,
 }
 
@@ -484,8 +485,10 @@ pub fn generate(rng: &Rng, world: &World, tier: &str) -> C17 {
     let ctx_decoys = with_ctx && r.chance(1, 3);
     let arg_style = r.weighted(&[6, 2, 2, 2, 2, 1, 1]) as u64;
     let kernel_fault = if out.is_some() && out.as_deref() != Some("context.zip") && fault == Fault::None && io_plan.is_empty() && prior_crash.is_none() && r.chance(1, 8) {
+        // (no real device such as /dev/full is ever handed to the tool: the checks run as root, and a
+        // tree under test that unlinks its output path on error would delete the device node)
         match r.below(4) {
-            0 => "devfull".to_string(),
+            0 => "fsize=0".to_string(),
             1 => "outdir".to_string(),
             _ => format!("fsize={}", r.range(0, 1500)),
         }
@@ -1136,7 +1139,7 @@ pub fn check(world: &World, sc: &C17, sandbox: &str) -> Report {
             Some(name) => (format!("{dir}/{name}"), format!("{dir}/{name}")),
             None => (o.clone(), format!("{dir}/{o}")),
         };
-        let (arg, abs) = if sc.kernel_fault == "devfull" { ("/dev/full".to_string(), "/dev/full".to_string()) } else { (arg, abs) };
+
         args.push("-o".to_string());
         args.push(arg);
         if sc.kernel_fault == "outdir" {
@@ -1164,7 +1167,7 @@ pub fn check(world: &World, sc: &C17, sandbox: &str) -> Report {
     args.push("-p".to_string());
     args.push(sc.print.clone());
     // --- the run -----------------------------------------------------------------------------
-    let fsize: Option<u64> = sc.kernel_fault.strip_prefix("fsize=").and_then(|n| n.parse().ok());
+    let fsize: Option<u64> = if sc.kernel_fault == "devfull" { Some(0) } else { sc.kernel_fault.strip_prefix("fsize=").and_then(|n| n.parse().ok()) };
     let o = match run_cli_limited(&rd, &restyle(&args, sc.arg_style), &sc.clock, sc.rand, &sc.io_plan, fsize) {
         Ok(o) => o,
         Err(e) => {
